@@ -382,6 +382,7 @@ func (mt *MetricTable) ApplyRules(rules MetricRules) *MetricTable {
 	}
 
 	applied := NewMetricTable(mt.maxTableSize, mt.metricPeriodStart)
+	applied.failedHarvests = mt.failedHarvests
 
 	for name, s := range mt.metrics {
 		_, out := rules.Apply(name)
